@@ -222,6 +222,8 @@ func c11(r *core.Run) {
 	r.Rule("E3", "existence is read, not assumed (badgerstore): in the transaction bodies of Update and Delete every database write is preceded on all paths by a read of the key (a call reaching Txn.Get) or by the edge on which the transaction's cached value is non-nil; the database itself accepts writes and deletes of missing keys", 2)
 	r.Rule("E4", "per-id operations are exact (badgerstore): no method of the read / write transaction (nor its private helpers and closures) opens an iterator or applies a prefix test; existence and values come from Txn.Get on the transaction's own key", 6)
 	r.Rule("K3", "a transaction's key is its own memory (shared with C16.O4): no key is built by appending to a slice kept in the store (append(st.prefixBytes, id...) handed to the transaction) - with spare capacity in that slice every open transaction's key is the same backing array, and opening a second transaction rewrites the key of the first: it then reads, writes and deletes another id's value while holding its own id's lock", 2)
+	r.Rule("K4", "what a transaction writes is what it was given (shared with C20.I2): the bytes handed to Txn.Set are not backed by a pooled buffer that is released before the commit - a concurrent mutation of another id (not excluded by the per-id lock) would refill it, and this transaction then stores, and reads back, the other id's value", 2)
+	storedBytesNotPooled(r, "K4", []string{"store/badgerstore"})
 	r.Rule("E2", "empty id: Create tests the transaction id against \"\" before any write and on that edge returns an error or installs a generated id", 2)
 	r.Rule("C1", "change callbacks: on every nil return of Create/Update/Delete exactly one change fan-out ran, after the mutation succeeded (err==nil edge), with (txn id, before value read in the same transaction or nil, new value or nil); on every non-nil return none ran", 12)
 	r.Rule("C2", "veto and type: the dynamic type check dominates the database transaction; the before-change fan-out runs inside the update closure before the write and its error aborts the closure", 5)
